@@ -142,6 +142,8 @@ package cli
 //@ before ApplyNow assert same(arg2, records)
 //@ before Sort assert same(arg0, closed) && arg1
 //@ before groupByDate assert same(arg1, records)
+// --fill spans from the first to the last of the sorted records
+//@ before allDatesRange assert len(records) >= 1 && arg0 == records[0].Date() && arg1 == records[len(records)-1].Date() && opt.Fill
 //@ before DateHash assert arg0 == date
 //@ before Total#1 assert same(arg0, recordGroups[hash])
 //@ before ShouldTotalSum#1 assert same(arg0, recordGroups[hash])
